@@ -273,6 +273,55 @@ theorem hf_cast_sound (big : K) (h : HeightField3 K) (ray : Ray3 K) (max : K) (s
     simp only [Option.map_some] at this
     rw [e1]; exact this
 
+/-- non-vacuity (over `ℚ`): the single valley cell with corner heights `1, 0, 0, 1` and unit scale, the horizontal ray of the
+cell-step example (direction length `√2`, starting under the first slope): the whole cast — bounding-box clip, start cell,
+cell step — returns the first crossing `7/20`, on the back face (`+ num_triangles`) of the first triangle. -/
+example : letI := fieldNum ℚ id
+    ((HeightField3.castLocalRayAndGetNormal (1000 : ℚ) ⟨2, 2, #[1, 0, 0, 1], ⟨1, 1, 1⟩, []⟩
+        ⟨⟨-3/5, 1/2, -3/5⟩, ⟨1, 0, 1⟩⟩ 1000 true).map fun r => (r.toi, r.fidx)) = some (7/20, 2) := by
+  have hl : ((mkRat 1 2 : ℚ) : ℚ) = 1/2 := by norm_num
+  have h2 : ((mkRat 2 1 : ℚ) : ℚ) = 2 := by norm_num
+  have h0 : ((mkRat 0 1 : ℚ) : ℚ) = 0 := by norm_num
+  have h1 : ((mkRat 1 1 : ℚ) : ℚ) = 1 := by norm_num
+  simp only [HeightField3.castLocalRayAndGetNormal, HeightField3.aabb, HeightField3.minH, HeightField3.maxH,
+    HeightField3.closestCell, HeightField3.quantizeFloor, HeightField3.ucw, HeightField3.uch, fieldNum_lit,
+    clipAabbLine, clipStep, neq, fieldNum_nmax, fieldNum_nmin, Ray3.pointAt, V3.add, V3.smul, List.foldl]
+  norm_num [hl, h2, h0, h1, List.range, List.range.loop, HeightField3.walk, HeightField3.trianglesAt, HeightField3.status,
+    HeightField3.height, HeightField3.ucw, HeightField3.uch, fieldNum_lit, hfCellCast, hfCellPick,
+    Triangle3.castLocalRayAndGetNormal, localRayIntersectionWithTriangle,
+    neq, nabs, V3.sub, V3.cross, V3.dot, V3.neg, HeightField3.faceId]
+
+/-- **3-D HeightField cast, the normal.**  With a lawful square root: the reported normal is a unit vector, collinear with
+the normal `(b−a)×(c−a)` of a triangle `(a, b, c)` of an existing cell whose cast is the reported hit, and oriented against
+the ray (`normal·dir < 0`) — whichever side of the terrain the ray comes from. -/
+theorem hf_cast_normal_spec (hs : LawfulSqrt sq) (big : K) (h : HeightField3 K) (ray : Ray3 K) (max : K) (solid : Bool)
+    (r : Hit3 K) :
+    letI := fieldNum K sq
+    h.castLocalRayAndGetNormal big ray max solid = some r →
+    r.n.normSq = 1 ∧ r.n.dot ray.d < 0 ∧
+    ∃ i j tr, i < h.nr - 1 ∧ j < h.nc - 1 ∧ ((h.trianglesAt i j).1 = some tr ∨ (h.trianglesAt i j).2 = some tr) ∧
+      (r.n.smul (triN sq tr.a tr.b tr.c).norm = triN sq tr.a tr.b tr.c ∨
+       r.n.smul (triN sq tr.a tr.b tr.c).norm = (triN sq tr.a tr.b tr.c).neg) := by
+  intro hc
+  obtain ⟨i, j, left, hit, hi, hj, hcell, _, e2, _, _⟩ := hf_cast_sound sq big h ray max solid r hc
+  obtain ⟨tr, htr, hcast⟩ := hfCellCast_from_triangle sq _ _ ray max solid left hit hcell
+  simp only [Triangle3.castLocalRayAndGetNormal] at hcast
+  cases hres : (@localRayIntersectionWithTriangle K (fieldNum K sq) tr.a tr.b tr.c ray) with
+  | none => rw [hres] at hcast; cases hcast
+  | some p =>
+    obtain ⟨h', bary⟩ := p
+    rw [hres] at hcast
+    simp only at hcast
+    split_ifs at hcast
+    simp only [Option.some.injEq] at hcast
+    subst hcast
+    obtain ⟨n1, n2, n3⟩ := triangle_normal_spec sq hs tr.a tr.b tr.c ray h' bary hres
+    rw [e2]
+    refine ⟨n1, n2, i, j, tr, hi, hj, ?_, n3⟩
+    cases left with
+    | true => exact Or.inl (by simpa using htr)
+    | false => exact Or.inr (by simpa using htr)
+
 /-- the full-strength statement for the 3-D heightfield: the reported time is the first parameter of `[0, max_toi]` at which
 the ray is on the surface (the union over ALL cells), and `None` means the segment misses the whole surface.  NOT proved:
 it needs the completeness of the grid walk (every cell whose footprint the ray's projection crosses before the hit is
